@@ -40,7 +40,7 @@ GenesisState ==
   IN [h |-> 0, inblock |-> FALSE, lastH |-> 0, feeSum |-> <<>>, txCount |-> 0,
       accts |-> [a \in DOMAIN Accts |-> [bal |-> BAdd(PowerAmount(Accts[a]), <<500>>), nonce |-> 0, code |-> 0, name |-> "", url |-> ""]],
       delegs |-> delegs, frozen |-> <<>>, rewards |-> [x \in {} |-> 0], props |-> [x \in {} |-> 0], fprops |-> [x \in {} |-> 0],
-      gov |-> Gov0, govLedger |-> [some |-> TRUE, v |-> Gov0], govPending |-> [some |-> FALSE],
+      gov |-> Gov0, prevGov |-> Gov0, govLedger |-> [some |-> TRUE, v |-> Gov0], govPending |-> [some |-> FALSE],
       vol |-> [lastVals |-> <<>>, allDelegs |-> [x \in {} |-> 0], limiter |-> [on |-> FALSE], rwdHash |-> "r", evmRoot |-> "r", evmHeight |-> 0],
       tree |-> [delegs |-> [x \in {} |-> 0], frozen |-> <<>>, props |-> [x \in {} |-> 0], fprops |-> [x \in {} |-> 0]],
       hist |-> [x \in {} |-> 0], docs |-> [x \in {} |-> 0], delivered |-> {}, proposer |-> "none"]
@@ -200,7 +200,7 @@ DoCommit ==
 
 \* process restart at a block boundary: everything that influences execution must be rebuilt (C07)
 DoRestart ==
-  /\ AllowRestart /\ phase = "idle" /\ s.lastH >= 1 /\ s.lastH < WarmBlocks + MaxBlocks
+  /\ AllowRestart /\ phase = "idle" /\ s.lastH >= 1 /\ s.lastH <= WarmBlocks + MaxBlocks /\ pre # s
   /\ LET r == Restart(s)
          e == [ev |-> "Restart", resp |-> [h |-> r.resp.h, hash |-> mon.lastHash], panic |-> ""]
      IN Judge(e, r.s)
